@@ -152,6 +152,12 @@ func (e *Env) FaultFired(kind string) {
 	e.mu.Unlock()
 }
 
+func (e *Env) FaultCount(kind string) int {
+	e.mu.Lock()
+	defer e.mu.Unlock()
+	return e.stats.Faults[kind]
+}
+
 func (e *Env) Check()        { e.mu.Lock(); e.stats.Checks++; e.mu.Unlock() }
 func (e *Env) ChecksN(n int) { e.mu.Lock(); e.stats.Checks += n; e.mu.Unlock() }
 func (e *Env) Inconclusive() { e.mu.Lock(); e.stats.Inconclusive++; e.mu.Unlock() }
@@ -279,6 +285,9 @@ func (e *Env) yield(op deadlock.Op, lock unsafe.Pointer, pc uintptr) {
 	n := e.siteHits[site]
 	e.siteHits[site] = n + 1
 	e.stats.Yields++
+	if debugYields {
+		e.events = append(e.events, Event{Seq: len(e.events), T: int64(time.Since(e.start)), Kind: "yield", Actor: -2, Msg: fmt.Sprintf("%s#%d", site, n)})
+	}
 	sc := &e.Plan.Stall
 	var ns int64
 	if !e.stallOff {
@@ -347,6 +356,7 @@ type RunOpts struct {
 var origReader io.Reader = crand.Reader
 
 var debugStacks = os.Getenv("DST_DEBUG_STACKS") != ""
+var debugYields = os.Getenv("DST_DEBUG_YIELDS") != ""
 
 // Run executes body inside a fresh bubble under the plan's seeds and returns
 // the result. It may be called many times per process.
@@ -382,7 +392,27 @@ func Run(plan *Plan, opts RunOpts, body func(e *Env)) (res *Result) {
 				case strings.Contains(msg, "blocked goroutines remain"):
 					// expected: the library leaves goroutines behind (cleaners, drains)
 				case strings.Contains(msg, "all goroutines in bubble are blocked"):
-					res.Infra = "bubble deadlock: " + msg
+					// Every task, the root included, is blocked for good and no timer is left: some call
+					// into the library never returned. Reported as a violation (hang), with the lock
+					// waiters and holders the shim knows about.
+					var ws []string
+					for _, w := range deadlock.Waiters() {
+						ws = append(ws, siteOf(w.PC))
+					}
+					sort.Strings(ws)
+					sig := "no lock waiter"
+					if len(ws) > 0 {
+						sig = "waiting at " + ws[0]
+					}
+					e.mu.Lock()
+					e.viol = append(e.viol, Violation{Class: plan.Prop + "/hang", Sig: sig,
+						Detail: fmt.Sprintf("all tasks blocked forever (bubble deadlock). pending API calls: %v; lock waiters: %v; locks held: %v", pendingOf(e), ws, HeldLocks())})
+					e.mu.Unlock()
+					if debugStacks {
+						buf := make([]byte, 1<<20)
+						k := runtime.Stack(buf, true)
+						res.Infra += "\n" + string(buf[:k])
+					}
 				default:
 					res.Infra = "panic on bubble root: " + msg + "\n" + string(debug.Stack())
 				}
@@ -460,4 +490,30 @@ func HeldLocks() []string {
 	}
 	sort.Strings(out)
 	return out
+}
+
+func pendingOf(e *Env) []string {
+	var out []string
+	for id := 1; id <= e.opSeq; id++ {
+		if s, ok := e.pending[id]; ok {
+			out = append(out, s)
+		}
+	}
+	return out
+}
+
+// Try runs f on its own task and waits at most d (fake time) for it to return. Oracles use it for
+// every library call they make from the root task, so that a call that hangs is a finding.
+func (e *Env) Try(d time.Duration, f func()) bool {
+	done := make(chan struct{})
+	go func() {
+		defer close(done)
+		f()
+	}()
+	select {
+	case <-done:
+		return true
+	case <-time.After(d):
+		return false
+	}
 }
